@@ -24,7 +24,7 @@ CONN_MUTANTS = ["keepenc", "keepboth", "partial"]
 MUTANTS = ["nogroup", "nologterm", "noencterm", "noindex", "nodecadv"]
 PROP_INVS = "Lossless StepFaithful InSync CtxAgree ErrorAfterDamage"
 
-STREAM_KEYS = ["conn_scenarios", "conn_connections_cut", "conn_delivered", "posts", "snapshot_posts",
+STREAM_KEYS = ["bursts", "burst_messages", "burst_not_written", "conn_scenarios", "conn_connections_cut", "conn_delivered", "posts", "snapshot_posts",
                "stream_connections", "stream_reconnects", "stream_messages", "stream_heartbeats", "stream_not_written",
                "stream_connections_not_logged"]
 ACTIONS = ["Encode", "EncodeFull", "EncodeHB", "Decode", "DoTruncate", "DoCorrupt"]
@@ -161,7 +161,8 @@ def run(ctx):
                 ("explore-b", ["-explore", "9", "-seed", str(seed * 10 + 5)]),
                 ("stream", ["-stream", "60", "-seed", str(seed * 10 + 6)]),
                 ("conn", ["-conn", "80", "-seed", str(seed * 10 + 7)]),
-                ("post", ["-post", "50", "-seed", str(seed * 10 + 8)])]
+                ("post", ["-post", "50", "-seed", str(seed * 10 + 8)]),
+                ("burst", ["-burst", ["h+2", "h+3", "h+9"][seed % 3], "-seed", str(seed * 10 + 9)])]
         walk_args = ["-dot", gdot, "-limit", "18000", "-seed", str(seed)]
     else:
         plan = [("random-%d" % i, ["-random", "250", "-len", "40", "-big", "0.12", "-seed", str(seed * 100 + i)]) for i in range(4)]
@@ -171,6 +172,8 @@ def run(ctx):
         plan += [("stream-%d" % i, ["-stream", "300", "-seed", str(seed * 100 + 40 + i)]) for i in range(2)]
         plan += [("conn-%d" % i, ["-conn", "300", "-seed", str(seed * 100 + 50 + i)]) for i in range(2)]
         plan += [("post", ["-post", "200", "-snap", "4", "-seed", str(seed * 100 + 60)])]
+        plan += [("burst-%d" % i, ["-burst", b, "-seed", str(seed * 100 + 70 + i)])
+                 for i, b in enumerate(["h-1,h,h+1", "h+2,h+3,m", "c-1,c,c+1"])]
         walk_args = ["-dot", gdot, "-seed", str(seed)]
 
     from concurrent.futures import ThreadPoolExecutor
@@ -268,6 +271,7 @@ def run(ctx):
                 nontrivial.add(c)
         for k in STREAM_KEYS:
             stream_stats[k] = stream_stats.get(k, 0) + summ.get(k, 0)
+        stream_stats["burst_sizes"] = sorted(set(stream_stats.get("burst_sizes", []) + (summ.get("burst_sizes") or [])))
         if summ.get("mode") == "graph":
             stats["graph_edges"] = summ["edges"]
             stats["graph_edges_replayed"] = summ["edges_covered"]
@@ -330,6 +334,14 @@ def run(ctx):
                  "TLC (ZCodecTrace OnTrunc/OnCorrupt) evaluates each: exactly the whole frames before the "
                  "damage, then an error"),
         stream_stage=dict(stream_stats,
+                          burst_rule="bursts: a real streamWriter is stalled inside a Write of a gated connection (the "
+                                     "first Write call is awaited), burst_sizes messages are queued with blocking sends "
+                                     "(sizes around half the queue = the flush batch, 3/4 and the capacity of "
+                                     "streamBufSize; beyond the capacity the rest is fed behind the release), the "
+                                     "connection is released; the frames found on it are attributed in order to the "
+                                     "messages handed over and read back by a fresh real decoder, logged in segments of "
+                                     "100 self-contained frames - a hand-over that is never written shifts the attribution "
+                                     "and is a mismatch; both stream types",
                           conn_rule="conn_*: a real streamWriter AND a real streamReader (its dials answered by the "
                                     "harness with the bytes of one connection each, cut at a seeded offset, often inside "
                                     "a frame); per connection ZCodecTrace applies Truncate at the cut and requires exactly "
